@@ -210,7 +210,12 @@ theorem C02_iter_handles_valid (b0 : Nat) (hb0 : b0 ≠ 0) (h : List Ev) (hh : H
 theorem C02_oneshot_identity (s : St) (i : Nat) (enter : Bool) :
     step cfg s (.c (.oneshot i enter)) = (s, .unit) := rfl
 
-/-! ## The status word of `str(p)` / `repr(p)` -/
+/-! ## The status word of `str(p)` / `repr(p)`
+
+Outside the property's statement (C02 speaks about `==`, `hash()` and `is_running()` only): `status i` is a
+model-correspondence observable — the model transcribes `__str__` as it is and the harness compares it with
+the implementation, without any specification-level judgement.  The theorems below say what that
+transcription guarantees and characterise what it does not. -/
 
 /-- **C02_status_terminated_sound.** After any history, when `str(p)` says "terminated" (with or without
     "+ PID reused"), the object's incarnation is indeed no longer in the process table. -/
@@ -240,7 +245,9 @@ theorem C02_status_listed (b0 : Nat) (hb0 : b0 ≠ 0) (h : List Ev) (hh : HistOK
   obtain ⟨x, hf, hs, hw⟩ := (statusWord_spec hinv.kern hok).2 hl
   exact ⟨x, hf, hs, ownZombie_of_find hinv.kern hf hs, by rw [step_status_out cfg s ho, hw]⟩
 
-/-- the full statement one would like: "terminated" is shown exactly when the incarnation is gone -/
+/-- CHARACTERISATION, not a clause of the property: the statement "terminated is shown exactly when the
+    incarnation is gone".  `__str__` deliberately has no side effects (it does not run `is_running()`), so
+    it cannot hold; see `C02_status_stale_counterexample`. -/
 def StatusTerminatedIffNotListed_Full (c : Cfg) : Prop :=
   ∀ (b0 : Nat), b0 ≠ 0 → ∀ (h : List Ev), HistOK h → ∀ (i : Nat) (o : PObj),
     (run c (St.init b0) h).ps.objs[i]? = some o →
@@ -251,11 +258,12 @@ def StatusTerminatedIffNotListed_Full (c : Cfg) : Prop :=
 /-- a handle whose process ended and whose PID was recycled, nobody having asked `is_running()` since -/
 def witnessStaleStr : List Ev := [.k (.spawn 8), .c (.newObj 8), .k (.reap 8), .k (.spawn 8)]
 
-/-- **C02_status_stale_counterexample.** `__str__` only looks at the `_pid_reused` flag and then reads
-    `/proc/pid/stat` of whoever holds the PID: for the stale handle of `witnessStaleStr` it shows the NEW
-    owner's status although the handle's own process is gone (is_running() on it is False).  The "only if"
-    half of the full statement is therefore false of the code as it is (the "if" half is
-    `C02_status_terminated_sound`). -/
+/-- **C02_status_stale_counterexample** (documented characterisation of `__str__`, outside the property's
+    statement — not a defect against C02).  `__str__` only looks at the `_pid_reused` flag and then reads
+    `/proc/pid/stat` of whoever holds the PID, deliberately without the identity test (no side effects in
+    `repr`): for the stale handle of `witnessStaleStr`, on which nobody has called `is_running()` since the
+    recycling, it shows the current owner's status.  So only the direction `C02_status_terminated_sound`
+    holds, not the converse. -/
 theorem C02_status_stale_counterexample : ¬ StatusTerminatedIffNotListed_Full cfg := by
   intro H
   have h0 : (run cfg (St.init 1000) witnessStaleStr).ps.objs[0]? = some ⟨8, 0 + cfg.clk * 1000, false, false, 0⟩ := by
